@@ -2,12 +2,14 @@
    Statements only; proofs are in Proofs/*.v.
    Model: Lang/Lexer.v, Lang/BlockString.v, Lang/Parser.v.
    Specs: Spec/LexSpec.v, Spec/GrammarSpec.v, Spec/LocSpec.v. *)
+(* the bytes-source vocabulary first, so that the names below win *)
+From PyGql Require Import Lang.Utf8 Lang.Source Proofs.Utf8Proofs.
 From PyGql Require Import Lang.Parser Spec.LexSpec Spec.GrammarSpec Spec.LocSpec
   Proofs.BlockStringProofs Proofs.LexProofs Proofs.VerbatimProofs Proofs.ParserTop
   Proofs.GrammarProofs Proofs.EntryProofs Spec.DocGrammarSpec Proofs.DocEntryProofs
   Spec.SdlGrammarSpec Proofs.SdlEntryProofs Spec.ReparseSpec Proofs.ReparseProofs
   Proofs.SpanOrderProofs Proofs.SpansFull Proofs.ReparseDefProofs
-  Spec.ReparseSdlSpec Proofs.ReparseSdlProofs.
+  Spec.ReparseSdlSpec Proofs.ReparseSdlProofs Spec.SubNodeSpec Proofs.SubNodeProofs.
 
 (* ---- literal decoding ---- *)
 
@@ -162,6 +164,54 @@ Theorem C02_reparse_span_definitions : forall fl s doc,
     /\ parse_document fl (substring s a b) = Ok (Doc [shift_def a d] l).
 Proof. exact reparse_document_definitions_loc. Qed.
 Print Assumptions C02_reparse_span_definitions.
+
+(* The re-parse law over the SUB-NODES of a returned tree (Spec/SubNodeSpec.v:
+   nodes_doc lists every Value / Variable / StringValue node and every Type
+   node occurring anywhere in the document -- arguments, default values,
+   directives, variable definitions, type conditions, field / argument / input
+   field types, interfaces, union members, operation types, descriptions, list
+   and object members, inner types -- recursively).  With locations on, each
+   such node has a loc (a, b) and s[a:b] goes through parse_value / parse_type
+   to exactly that node with every span moved by a. *)
+Theorem C02_reparse_subnodes_document : forall fl s doc,
+  parse_document fl s = Ok doc -> no_location fl = false ->
+  (forall v, In (NV v) (nodes_doc doc) ->
+     exists a b, value_loc v = Some (a, b) /\ parse_value_str fl (substring s a b) = Ok (shift_value a v))
+  /\ (forall t, In (NT t) (nodes_doc doc) ->
+     exists a b, ty_loc t = Some (a, b) /\ parse_type_str fl (substring s a b) = Ok (shift_ty a t)).
+Proof. exact reparse_subnodes_document. Qed.
+Print Assumptions C02_reparse_subnodes_document.
+
+(* the same below a value returned by parse_value and a type returned by parse_type *)
+Theorem C02_reparse_subnodes_value_type : forall fl s, no_location fl = false ->
+  (forall v0, parse_value_str fl s = Ok v0 -> forall v, In (NV v) (sub_value v0) ->
+     exists a b, value_loc v = Some (a, b) /\ parse_value_str fl (substring s a b) = Ok (shift_value a v))
+  /\ (forall t0, parse_type_str fl s = Ok t0 -> forall t, In (NT t) (sub_ty t0) ->
+     exists a b, ty_loc t = Some (a, b) /\ parse_type_str fl (substring s a b) = Ok (shift_ty a t)).
+Proof.
+  intros fl s Hnl. split; [intros v0 H; exact (reparse_subnodes_value fl s v0 H Hnl)
+                          |intros t0 H; exact (reparse_subnodes_type fl s t0 H Hnl)].
+Qed.
+Print Assumptions C02_reparse_subnodes_value_type.
+
+(* A bytes source (Lang/Source.v, Lang/Utf8.v: strict UTF-8 decoding as
+   bytes.decode("utf8") does it, a BOM kept as U+FEFF).  Decoding inverts
+   encoding on every text of Unicode scalar values; hence the UTF-8 bytes of a
+   text give the text itself as `source` and the same outcome -- the same tree
+   with the same locs, which are offsets into the decoded text -- or the same
+   rejection, for parse / parse_value / parse_type under every flag triple. *)
+Theorem C02_utf8_roundtrip : forall s, Forall scalar s ->
+  decode_utf8 (encode_utf8 s) = Some s /\ Forall is_byte (encode_utf8 s).
+Proof. intros s H. split; [exact (decode_encode s H)|exact (encode_bytes s H)]. Qed.
+Print Assumptions C02_utf8_roundtrip.
+
+Theorem C02_bytes_like_text : forall fl s, Forall scalar s ->
+  source_text (encode_utf8 s) = Some s
+  /\ parse_document_bytes fl (encode_utf8 s) = parse_document fl s
+  /\ parse_value_bytes fl (encode_utf8 s) = parse_value_str fl s
+  /\ parse_type_bytes fl (encode_utf8 s) = parse_type_str fl s.
+Proof. exact bytes_like_text. Qed.
+Print Assumptions C02_bytes_like_text.
 
 (* With positions disabled no node of the tree has a loc (documents, values,
    types; every flag combination otherwise). *)
